@@ -295,5 +295,18 @@ pub fn special_ext_tasks() -> Vec<ExtTask> {
         mk("out(X) :- in(X), X != a.", false, "out(X) :- in(X), X != a.", "input: in/1. output: out/1.", "lemma: forall X (out(X) -> in(X)). lemma(forward): q_dummy -> q_dummy."),
         mk("a. out(a).", false, "out(a). a.", "output: a/0. output: out/1.", "lemma: out(a)."),
         mk("a. out(a). out(a0).", false, "out(a). out(a0). a.", "output: a/0. output: out/1.", "lemma: out(a) and out(a0)."),
+        // propositional and binary public predicates, constraint-only differences
+        mk("q :- r.", false, "q :- r, not aux.", "input: r/0. output: q/0.", ""),
+        mk("q :- r, not aux. aux :- r, s.", false, "q :- r, not s.", "input: r/0. input: s/0. output: q/0.", ""),
+        mk("out :- in(X).", false, "out :- in(X), not not in(X).", "input: in/1. output: out/0.", ""),
+        mk("out :- in(X), X > 0.", false, "out :- in(X).", "input: in/1. output: out/0.", ""),
+        mk("out(X,Y) :- in(X), in(Y), X < Y.", false, "out(X,Y) :- in(X), in(Y), not X >= Y.", "input: in/1. output: out/2.", ""),
+        mk("out(X,Y) :- in(X), in(Y), X < Y.", false, "out(X,Y) :- in(X), in(Y), X != Y.", "input: in/1. output: out/2.", ""),
+        mk(":- in(X), X > 1. out(X) :- in(X).", false, "out(X) :- in(X), X <= 1. :- in(X), not out(X).", "input: in/1. output: out/1.", ""),
+        mk(":- in(X), X > 1. out(X) :- in(X).", false, "out(X) :- in(X).", "input: in/1. output: out/1.", ""),
+        mk("spec(forward)[f1]: forall X (out(X) -> in(X)). spec(backward)[b1]: forall X (in(X) and X <= n -> out(X)). assumption[a1]: n > 0.", true, "out(X) :- in(X), X <= n.", "input: in/1. output: out/1. input: n -> integer.", ""),
+        mk("spec: forall X (out(X) <-> in(X) and X <= n).", true, "out(X) :- in(X), X <= n.", "input: in/1. output: out/1. input: n.", ""),
+        mk("spec: forall X Y (out(X,Y) <-> in(X) and in(Y) and X < Y).", true, "out(X,Y) :- in(X), in(Y), X < Y.", "input: in/1. output: out/2.", ""),
+        mk("spec: out <-> exists X in(X).", true, "out :- in(X).", "input: in/1. output: out/0.", ""),
     ]
 }
